@@ -472,6 +472,9 @@ def _r1(ctx, rep) -> None:
     t = norm(fn)
     ok_src = "stages = execution.top_level_stages()" in t and "statuses = [s.status for s in stages]" in t
     rep.check(ok_src, "C05.R1", "the outcome is computed from the top-level stages' statuses", "statuses = [s.status for s in execution.top_level_stages()]", fi.file, fn.lineno, disc="source")
+    from ..dom import expand_locals
+    # a condition computed into a local first reads the same as the inline condition
+    tests = [(i, norm(expand_locals(s_.test, fn, 1)) if isinstance(s_.test, ast.Name) else t_, s_) for i, t_, s_ in tests]
     first = tests[0] if tests else None
     ok = first is not None and first[1] in ("all((s in CONTINUABLE_STATUSES for s in statuses))", "all(s in CONTINUABLE_STATUSES for s in statuses)") and norm(first[2].body[0]) == "return WorkflowStatus.SUCCEEDED"
     rep.check(ok, "C05.R1", "SUCCEEDED requires every top-level stage continuable", "if all(s in CONTINUABLE_STATUSES for s in statuses): return SUCCEEDED (first test)", fi.file, first[2].lineno if first else fn.lineno, disc="all-continuable")
@@ -492,9 +495,26 @@ def _r1(ctx, rep) -> None:
     lim = [x for x in tests if x[1] == "retry_count >= max_retries"]
     ok = bool(lim) and norm(lim[0][2].body[-1]) == "return WorkflowStatus.TERMINAL"
     rep.check(ok, "C05.R1", "the wait for unfinished stages is bounded", "if retry_count >= max_retries: return TERMINAL", fi.file, lim[0][2].lineno if lim else fn.lineno, disc="bounded")
-    tail = body[-3:]
+    # the final `return None` is preceded - in the function itself or in a helper method it calls - by the delayed push of a
+    # CompleteWorkflow whose retry_count is the incoming one + 1
+    cls_ = prog.cls("stabilize.handlers.complete_workflow", "CompleteWorkflowHandler")
+
+    def _requeues(stmts, depth=0) -> bool:
+        txt = " ".join(norm(s_) for s_ in stmts)
+        if "retry_count=retry_count + 1" in txt and "self.queue.push(" in txt and "self.retry_delay" in txt and "CompleteWorkflow(" in txt:
+            return True
+        if depth < 1:
+            for s_ in stmts:
+                for c_ in ast.walk(s_):
+                    if isinstance(c_, ast.Call) and isinstance(c_.func, ast.Attribute) and isinstance(c_.func.value, ast.Name) and c_.func.value.id == "self":
+                        h_ = prog.find_method(cls_, c_.func.attr)
+                        if h_ is not None and "retry_count" in [norm(a_) for a_ in c_.args] + [k_.arg for k_ in c_.keywords] and _requeues(h_.node.body, depth + 1):
+                            return True
+        return False
+
+    tail = body[-6:]
     tt = " ".join(norm(s) for s in tail)
-    ok = "retry_count=retry_count + 1" in tt and "self.queue.push(new_message, self.retry_delay)" in tt and norm(body[-1]) == "return None"
+    ok = _requeues(tail) and norm(body[-1]) == "return None"
     rep.check(ok, "C05.R1", "not ready: re-queue CompleteWorkflow with retry_count + 1, then None", tt[:120], fi.file, body[-1].lineno, disc="requeue")
     on = prog.func("stabilize.handlers.complete_workflow", "CompleteWorkflowHandler._handle_with_retry.on_execution").node
     g = [s for s in on.body if isinstance(s, ast.If) and norm(s.test) == "status is None" and isinstance(s.body[-1], ast.Return)]
